@@ -19,7 +19,7 @@ CLAUSE = {'A': 'FixApplies', 'R': 'ReLintClean', 'U': 'Unchanged'}
 
 def gen_cases(ctx, per_cell, ninputs):
     cases = []
-    for profile in L.PROFILES:
+    for profile in (os.environ.get('VERIF_C43_PROFILES', '').split(',') if os.environ.get('VERIF_C43_PROFILES') else L.PROFILES):   # (development: restrict the cells)
         for layout in L.LAYOUTS:
             for i in range(per_cell):
                 g = L.LintGen(ctx.rng, profile, layout)
@@ -68,7 +68,7 @@ def run(ctx):
         c = ctx.replay['case']
         cases = [(c['prog'], c['inputs'])]
     else:
-        cases = gen_cases(ctx, int(os.environ.get('VERIF_C43_N', 0)) or (4 if ctx.quick else 40), 2 if ctx.quick else 3)
+        cases = gen_cases(ctx, int(os.environ.get('VERIF_C43_N', 0)) or (3 if ctx.quick else 15), 2 if ctx.quick else 3)
     recorder = Recorder()
     results, fails, legal = F.behaviour_check(ctx, 'lintfix', cases, recorder)
 
@@ -142,7 +142,9 @@ def run(ctx):
     ctx.cover['programs_with_legal_inputs'] = len(legal)
     if not ctx.replay:
         # vacuity: every profile must really contain what it promises
-        if stats['target_op_tokens'] < 10 or stats['ub_check_lines'] < 10 or stats['old_spellings_in_strings_or_comments'] < 10:
+        if os.environ.get('VERIF_C43_PROFILES'):
+            pass
+        elif stats['target_op_tokens'] < 10 or stats['ub_check_lines'] < 10 or stats['old_spellings_in_strings_or_comments'] < 10:
             raise MachineryError(f'vacuity: generated programs lack targets/distractors: {stats}')
     for r in results[:1]:
         rec = recorder.records.get(id(cases[r['idx']][0]))
